@@ -80,6 +80,7 @@ func (c *Ctx) buildVC(fn *ssa.Function, con *Contract) *Unit {
 	}
 	if con != nil {
 		u.onReturn = func(f *Frame, rst *State, vals []Val, k int, pos token.Pos) {
+			u.em.obls = append(u.em.obls, &Obligation{Name: fmt.Sprintf("%s#vacuity#return%d", u.unitName(), k+1), Kind: "vacuity", At: len(em.lines), PC: rst.pc, Goal: "false", Func: u.unitName(), Unit: u})
 			env := &SpecEnv{u: u, st: rst, old: entry, vars: bindPost(vals), oldVars: params, pkg: con.Pkg, fr: pf, atExit: true}
 			for _, e := range con.Ensures {
 				t := env.boolExpr(e.Expr)
